@@ -194,29 +194,15 @@ theorem simple_ids (s : List Char) : ∀ x, (simple s).1 = some x → setIds x :
   split
   · rename_i x h
     have := terminated_eq h
-    unfold hyphen at this
-    simp only at this
-    split at this
-    · cases this
-    · split at this
-      · split at this
-        · cases this
-        · split at this
-          · cases this
-          · rename_i u r4 hu
-            cases this
-            intro y hy
-            refine hyphenSet_ids ?_ (hyphenUpper_ids (partialVersion_ids hu)) hy
-            intro p hp
-            rw [Option.filter_eq_some_iff] at hp
-            have h1 := hp.1
-            split at h1
-            · rename_i p' r' hp'
-              simp only [Option.some.injEq] at h1
-              subst h1
-              exact partialVersion_ids hp'
-            · cases h1
-      · cases this
+    obtain ⟨u, hu, ho⟩ := hyphen_some (o := x.1) (r := x.2) this
+    obtain ⟨r3, hu3⟩ := hyphenRest_some hu
+    intro y hy
+    rw [ho] at hy
+    refine hyphenSet_ids ?_ (hyphenUpper_ids (partialVersion_ids hu3)) hy
+    intro p hp
+    rw [Option.filter_eq_some_iff] at hp
+    obtain ⟨r', hp'⟩ := optPartial_some hp.1
+    exact partialVersion_ids hp'
   · split
     · rename_i x h
       have := terminated_eq h
